@@ -109,6 +109,10 @@ def diagnostics(x, y, par):
   out = {'fragile': set()}
   corr = pearson(x, y)
   out['corr'] = corr
+  if corr == corr and 1.0 - corr * corr < 1e-12:
+    # the two series are collinear up to ~1e-6 of their spread: the regression residuals, and every test computed from
+    # them, consist largely of rounding noise - no obligation on their outcomes
+    out['fragile'] |= {'aa', 'bb', 'dw'}
   if corr == corr and abs(corr) < 1:
     out['required_impact'] = required_impact(y, corr, par)
   else:
